@@ -272,6 +272,22 @@ func (ft *FT) materialize(v ssa.Value, l *Loc) Term {
 		}
 		return forall(vs, "(! "+app(">", app(q(name), as...), "0")+" :pattern ("+app(q(name), as...)+"))")
 	}())
+	// addresses of different fields are different: every address function carries its own tag
+	ft.d.fun("addrtag", []Sort{"Int"}, "Int")
+	tag := num(int64(ft.d.typeID(types.NewNamed(types.NewTypeName(0, nil, name, nil), types.Typ[types.Int], nil))))
+	ft.d.axiom("addrtag "+name, func() Term {
+		if len(sorts) == 0 {
+			return eq(app("addrtag", q(name)), tag)
+		}
+		var vs [][2]string
+		var as []Term
+		for i, s := range sorts {
+			n := fmt.Sprintf("a%d", i)
+			vs = append(vs, [2]string{n, s})
+			as = append(as, n)
+		}
+		return forall(vs, "(! "+eq(app("addrtag", app(q(name), as...)), tag)+" :pattern ("+app(q(name), as...)+"))")
+	}())
 	return app(q(name), args...)
 }
 
@@ -533,12 +549,6 @@ func (ft *FT) writtenKeys(blocks map[*ssa.BasicBlock]bool) (map[string]bool, boo
 				for _, k := range ks {
 					keys[k] = true
 				}
-			case *ssa.Send, *ssa.Select:
-				all = true
-			case *ssa.UnOp:
-				if x.Op == token.ARROW {
-					all = true
-				}
 			}
 		}
 	}
@@ -573,12 +583,15 @@ func indexInBlock(ins ssa.Instruction) int {
 
 func (ft *FT) mapKeys(mt *types.Map) []string {
 	ks, vs := ft.d.sortOf(mt.Key()), ft.d.sortOf(mt.Elem())
-	md := "MD!" + ks
-	mv := "MV!" + ks + "!" + vs
+	// one heap family per (underlying) Go map type, so that maps of different types never share a frame
+	tn := typeKeyName(types.NewMap(mt.Key(), mt.Elem()))
+	md := "MD!" + tn
+	mv := "MV!" + tn
+	ml := "ML!" + tn
 	ft.keySort(md, arraySort("Int", arraySort(ks, "Bool")))
 	ft.keySort(mv, arraySort("Int", arraySort(ks, vs)))
-	ft.keySort("ML", arraySort("Int", "Int"))
-	return []string{md, mv, "ML"}
+	ft.keySort(ml, arraySort("Int", "Int"))
+	return []string{md, mv, ml}
 }
 
 // keysOfAddr: keys written by a store through addr (syntactic; no terms needed).
